@@ -34,6 +34,7 @@ inline bool deliver_F(Rng& r, uint64_t idx)
   World w;
   w.tag = "dF" + std::to_string(idx);
   w.random_backend_options(r);
+  if (r.chance(1, 4)) w.user_clock_mask = static_cast<uint32_t>(r.range(1, 31)); // some loggers stamp with a user clock that runs ahead
   make_topology(w, r);
   uint32_t const nt = static_cast<uint32_t>(r.range(1, 10));
   g_delay.store(static_cast<uint32_t>(r.pick({0, 1, 1, 2})));
@@ -92,6 +93,7 @@ inline bool deliver_S(Rng& r, uint64_t idx)
   World w;
   w.tag = "dS" + std::to_string(idx);
   w.random_backend_options(r);
+  if (r.chance(1, 4)) w.user_clock_mask = static_cast<uint32_t>(r.range(1, 31)); // some loggers stamp with a user clock that runs ahead
   make_topology(w, r);
   recorder().clear();
   SRun run{w, r};
@@ -216,6 +218,7 @@ inline bool deliver_S(Rng& r, uint64_t idx)
   }
   (void)hard_limit_stops;
   stat_add("deliver_scenarios");
+  if (w.user_clock_mask) stat_add("deliver_scenarios_with_user_clock_loggers");
   stat_add("statements_issued", static_cast<long long>(run.all_issues().size()));
   stat_add("mode_s_polls", static_cast<long long>(run.polls));
   stat_add("mode_s_injected_ops_inside_backend_windows", static_cast<long long>(run.injected));
